@@ -24,7 +24,7 @@ def decodeSamples (s : String) (viaCli : Bool) : Option (List (String × Pop)) :
     let body := (s.drop 2).toString
     if !viaCli then
       some ((parseItems body).map (fun kv => (kv.1, match kv.2 with | some p => Pop.named p | none => Pop.unnamed)))
-    else if s.startsWith "S:" then
+    else if s.startsWith "S:" || s.startsWith "F:" then
       -- the harness writes one line per item: `name\tpop\n` / `name\n`
       let content := String.join ((parseItems body).map (fun kv => match kv.2 with | some p => kv.1 ++ "\t" ++ p ++ "\n" | none => kv.1 ++ "\n"))
       some (parseSamplesFile content.toList)
